@@ -187,13 +187,36 @@ def reachMulti : Shape → Option (List Shape)
   | .multi ds => some ds
   | _ => none
 
+/- `failfast` as read from a freshly built object, and the leaves an assignment of `failfast` to it reaches -/
+mutual
+def ffRead : Shape → Bool
+  | .tt ff | .text ff => ff
+  | .etod c => (caps c).failfast && ffRead c
+  | .multi ds => ffReadHead ds
+  | _ => false
+def ffReadHead : List Shape → Bool
+  | [] => false
+  | d :: _ => ffRead d
+end
+mutual
+def ffReach : Shape → List Bool
+  | .tt ff | .text ff => [ff]
+  | .etod c => if (caps c).failfast then ffReach c else []
+  | .multi ds => ffReachL ds
+  | _ => []
+def ffReachL : List Shape → List Bool
+  | [] => []
+  | d :: ds => ffReach d ++ ffReachL ds
+end
+
 /- known finding `nestedMultiFailfast`: a `MultiTestResult` holding (through `ExtendedToOriginalDecorator`s) another
-one whose leaves differ in `failfast` -/
+one that hands a `failfast` assignment on to a leaf whose `failfast` differs from what the inner one reads as its own
+(its first target's) -/
 mutual
 def mixedNested : Shape → Bool
   | .multi cs => mixedNestedL cs || cs.any fun c =>
       match reachMulti c with
-      | some ds => !(((leafParamsL ds).all id) || ((leafParamsL ds).all (!·)))
+      | some ds => !((ffReachL ds).all (· == ffReadHead ds))
       | none => false
   | .etod c | .deco c | .tagger _ _ c | .tfr c | .e2s c => mixedNested c
   | _ => false
